@@ -262,6 +262,38 @@ def leading_zero_keys(d, count, start):
     return [x for x in out if 1 <= x < d.n]
 
 
+def check_all_registered(ctx):
+    """every curve object in the public registry ecdsa.curves.curves (also one this harness has no table
+    entry for) round-trips its keys through DER and PEM onto the same curve object"""
+    import ecdsa.curves as CV
+    for cv in list(CV.curves):
+        case = {"kind": "registered-curve", "name": cv.name}
+        n = int(cv.order)
+        for dd in (1, 2, n // 3 + 1, n - 1):
+            ctx.ev()
+            try:
+                sk = SigningKey.from_secret_exponent(dd, curve=cv, hashfunc=hashlib.sha256)
+                vk = sk.get_verifying_key()
+                outs = [("vk-der", VerifyingKey.from_der(vk.to_der()), vk), ("vk-pem", VerifyingKey.from_pem(vk.to_pem()), vk),
+                        ("vk-der-compressed", VerifyingKey.from_der(vk.to_der("compressed")), vk),
+                        ("sk-der", SigningKey.from_der(sk.to_der()), sk), ("sk-pem", SigningKey.from_pem(sk.to_pem()), sk),
+                        ("sk-pkcs8", SigningKey.from_der(sk.to_der(format="pkcs8")), sk),
+                        ("sk-pkcs8-pem", SigningKey.from_pem(sk.to_pem(format="pkcs8")), sk)]
+            except Exception as e:
+                ctx.fail("registered-curve/exception/%s" % exc_sig(e), dict(case, d=dd), repr(e))
+                continue
+            for what, back, orig in outs:
+                if back.curve is not cv or back.curve.name != cv.name:
+                    ctx.fail("registered-curve/other-curve-after-round-trip/%s" % what, dict(case, d=dd),
+                             "key on %s came back on %s" % (cv.name, back.curve.name))
+                elif not (back == orig) or back.to_string() != orig.to_string():
+                    ctx.fail("registered-curve/unequal-after-round-trip/%s" % what, dict(case, d=dd), "")
+        if cv.name not in gen.NAMED:
+            ctx.event("registered-curve:not-in-harness-table")
+        ctx.nontrivial(("registered", cv.name))
+    ctx.sample({"kind": "registered-curve", "count": len(CV.curves), "names": [c.name for c in CV.curves]})
+
+
 def check_registry(ctx):
     """the curve registry ecdsa.curves.curves is a public list: a curve appended to it must be found by the
     DER/PEM loaders from then on and a removed one must not, whatever was looked up before"""
@@ -321,7 +353,7 @@ def check_registry(ctx):
 
 def units(tier, seed):
     q = tier == "quick"
-    out = [("registry", {})]
+    out = [("registry", {}), ("registered", {})]
     names = sorted(gen.NAMED, key=lambda x: -gen.dom(x).p)
     for nm in names:
         out.append(("named", {"curve": nm, "boundary": 6 if q else 40, "lz": 1 if q else 6, "random": 2 if q else 60}))
@@ -348,6 +380,8 @@ def run_unit(ctx, name, **kw):
             case = {"curve": kw["curve"], "d": dd}
             check_key(ctx, case)
             ctx.sample(case)
+    elif name == "registered":
+        check_all_registered(ctx)
     elif name == "registry":
         check_registry(ctx)
     elif name == "toys":
@@ -364,5 +398,7 @@ def run_unit(ctx, name, **kw):
 def replay(ctx, case):
     if case.get("kind") == "registry":
         check_registry(ctx)
+    elif case.get("kind") == "registered-curve":
+        check_all_registered(ctx)
     else:
         check_key(ctx, case)
